@@ -86,6 +86,8 @@ class C08(Prop):
             "companion": gen.companion(),
             # calls with unsendable arguments that the application tries (and whose error it catches) on the way
             "noise_calls": gen.noise_calls(),
+            # the application has switched on DEBUG logging for the library
+            "debug_log": gen.debug_log(),
         })
 
     def enumerations(self, tier):
@@ -114,7 +116,7 @@ class C08(Prop):
                  dict(base, mode="client_first", server_close={"kind": "close", "code": 1001, "reason": "ok then"}),
                  dict(base, mode="close_in_closing", server_close={"kind": "close", "code": None}),
                  dict(base, mode="crossing", server_close={"kind": "close", "code": 1000, "reason": "crossed"})]
-        from harness.runner import with_noise, with_companion
+        from harness.runner import with_noise, with_companion, with_debug_log
 
         def close_write_fails():
             send = {"when": ["every"], "do": [SEND_ACTIONS[0]]}
@@ -125,7 +127,7 @@ class C08(Prop):
                             for sends in ([], [send]):
                                 yield dict(b, close_write_fault=how, close_timeout=ct, eof=eof, sends=sends)
         return [Enumeration("closing_handshakes_after_every_kind_of_earlier_connection", after_every_prelude,
-                            exhaustive=True), with_noise(small), with_companion(small),
+                            exhaustive=True), with_noise(small), with_companion(small), with_debug_log(small),
                 Enumeration("the_close_frame_cannot_be_written", close_write_fails, exhaustive=True)]
 
     def run_case(self, case):
@@ -201,14 +203,13 @@ class C08(Prop):
         if tr.escaped:
             return failed("escaped_exception", tr.escaped, labels, True)
 
-        # (with an injected failure of the Close write the ATTEMPT stands for the frame: "exactly one" then means
-        # it is not tried again)
-        frames, problem = client_frames(tr.sim, with_failed_close=bool(cwf))
-        if cwf and any(e[0] == "send_fail" and e[2][:1] == b"\x88" for e in tr.sim.log):
+        frames, problem = client_frames(tr.sim)
+        write_failed = bool(cwf) and any(e[0] == "send_fail" and e[2][:1] == b"\x88" for e in tr.sim.log)
+        if write_failed:
             labels.add("close_write_failed:" + cwf)
         if problem:
             return failed("invalid_client_frame", problem, labels, True)
-        closes = [(li, f) for li, f in frames if f.opcode == wire.CLOSE]
+        closes = [(li, f) for li, f in frames if f.opcode == wire.CLOSE]     # Close frames that reached the wire
         close_li = closes[0][0] if closes else None
         # -- attempts after a Close was written
         attempted_after = False
@@ -243,6 +244,17 @@ class C08(Prop):
                 labels.add("control_frame_after_close(not demanded here)")
 
         msgs = [e for e in tr.events if e["name"] in ("text", "binary", "ping", "pong")]
+        if write_failed and mode in ("client_first", "client_only"):
+            # the application's own Close could not be written: the statement does not say what follows (trying again
+            # later would be as defensible as giving up), so only the clauses checked so far apply - nothing hangs or
+            # escapes, at most one Close reaches the wire, no data frame follows it
+            labels.add("close_write_failed:own_close(not judged further)")
+            return held(labels, nontrivial)
+        if write_failed:
+            # the echo of the server's Close could not be written: the attempt stands for the frame below (Closing was
+            # yielded, the server drops the connection: graceful Disconnected, socket closed)
+            all_frames, _ = client_frames(tr.sim, with_failed_close=True)
+            closes = closes or [(li, f) for li, f in (all_frames or []) if f.opcode == wire.CLOSE][:1]
         if mode in ("client_first", "client_only"):
             exp_payload = self.close_payload(args)
             if "connected" not in names:
